@@ -21,7 +21,8 @@ RULE = ('every schedule of the driver with at most the stated number of preempti
         'non-trivial = schedules containing at least one context switch inside shared code; states = distinct (per-thread position, '
         'thread status) vectors visited; every schedule is an execution of the real code')
 ASSUMPTIONS = ['Python-line granularity: races inside one line, inside C calls or where lxml releases the GIL are not modelled',
-               'code outside the point files only touches per-request state (checked in the thorough tier by a bound-1 run with every spyne file as a point file for one driver)']
+               'code outside the point files only touches per-request state (checked in the thorough tier by a bound-1 run with every spyne file as a point file for one driver)',
+               'the real-time-triggered gc.collect() of MethodContext.close() is switched off (spyne.const.MIN_GC_INTERVAL = inf): the harness owns the clock']
 FLOOR = {'quick': 300, 'thorough': 3000}
 TNS = universe.TNS
 I = ['p', 'Integer', {}]
@@ -30,6 +31,7 @@ REPO = os.path.abspath(os.environ.get('VERIF_REPO', '/repo'))
 
 NARROW = ['server/wsgi.py', 'util/memo.py', 'util/cdict.py', 'protocol/_base.py']
 RPC = NARROW + ['protocol/xml.py', 'protocol/soap/soap11.py', 'context.py']
+JSONF = NARROW + ['protocol/dictdoc/hier.py', 'protocol/dictdoc/_base.py', 'protocol/json.py', 'context.py']
 WIDE = RPC + ['interface/wsdl/wsdl11.py', 'interface/_base.py', 'interface/xml_schema/_base.py', 'model/complex.py', 'protocol/_inbase.py',
               'protocol/_outbase.py', 'server/_base.py', 'application.py']
 
@@ -46,8 +48,11 @@ def program():
           {'n': 'other', 'args': [['p', ['c', 'P', {}]]], 'ret': ['c', 'P', {}]},
           {'n': 'strict', 'args': [['n', ['p', 'Integer', {'ge': 0, 'le': 9}]], ['t', ['p', 'Unicode', {'max_len': 6}]]], 'ret': I},
           {'n': 'poly', 'args': [['n', I]], 'ret': ['c', 'P', {}]},
-          {'n': 'pa', 'args': [['n', I]], 'ret': ['c', 'W', {}]}]
-    return {'tns': TNS, 'classes': [P, Q, W], 'services': [{'n': 'S', 'methods': ms}]}
+          {'n': 'pa', 'args': [['n', I]], 'ret': ['c', 'W', {}]},
+          {'n': 'ord', 'args': [['n', I]], 'ret': ['c', 'Ord', {}]}]
+    # a subclass whose own member asks to be ordered first: the protocols that order fields have work to do (and to cache)
+    Ord = {'n': 'Ord', 'base': 'P', 'fields': [['k', ['p', 'Integer', {'order': 0}]], ['z', U]]}
+    return {'tns': TNS, 'classes': [P, Q, W, Ord], 'services': [{'n': 'S', 'methods': ms}]}
 
 
 def soap(method, inner):
@@ -67,6 +72,9 @@ REQS = {
     'poly2': ('POST', '', soap('poly', '<t:n>2</t:n>')),
     'pa1': ('POST', '', soap('pa', '<t:n>1</t:n>')),
     'pa2': ('POST', '', soap('pa', '<t:n>2</t:n>')),
+    'jo1': ('POST', '', b'{"ord": {"n": 1}}'),
+    'jo2': ('POST', '', b'{"ord": {"n": 2}}'),
+    'je1': ('POST', '', b'{"echo": {"a": 1, "s": "first"}}'),
 }
 
 DRIVERS = {
@@ -81,11 +89,14 @@ DRIVERS = {
     'poly|poly': (['poly1', 'poly2'], None, True, NARROW + ['protocol/xml.py'], RPC),
     'prot_attrs|prot_attrs': (['pa1', 'pa2'], None, False, ['protocol/_base.py', 'server/wsgi.py'], RPC),
     'wsdl|wsdl|rpc': (['wsdl', 'wsdl', 'echo1'], None, False, ['server/wsgi.py'], ['server/wsgi.py', 'protocol/_base.py']),
+    # the dict-document family (JSON, positional objects): per-protocol caches of field order and attributes
+    'json-ordered|json-ordered': (['jo1', 'jo2'], None, False, ['protocol/_base.py', 'server/wsgi.py'], JSONF, 'json'),
+    'json-ordered|json-rpc': (['jo1', 'je1'], 'soft', False, ['protocol/_base.py', 'server/wsgi.py'], JSONF, 'json'),
 }
 
 
 def bounds(tier):
-    return {'drivers': sorted(DRIVERS), 'preemption_bound': 1 if tier == 'quick' else '3 for wsdl|wsdl and 2 for every other request pair with server/wsgi.py as the point file; 1 on the wide file sets and on all spyne files',
+    return {'drivers': sorted(DRIVERS), 'preemption_bound': 1 if tier == 'quick' else '2 for every two-thread driver with server/wsgi.py as the point file; 1 on the wide file sets, for the three-thread driver and on all spyne files',
             'horizon_steps': 20000, 'granularity': 'Python line events in the listed files + cooperative lock operations'}
 
 
@@ -103,15 +114,24 @@ class World(object):
         from spyne.server.wsgi import WsgiApplication
         from spyne.util.memo import memoize
         from spyne.model.fault import Fault
-        reqs, validator, poly, _, _ = DRIVERS[driver]
+        reqs, validator, poly = DRIVERS[driver][:3]
+        proto = DRIVERS[driver][5] if len(DRIVERS[driver]) > 5 else 'soap11'
         self.reqs = reqs
+        # own the clock: MethodContext.close() runs gc.collect() when more than MIN_GC_INTERVAL seconds of real time have
+        # passed since the last one - four extra line events in context.py at unpredictable executions
+        import spyne.const
+        spyne.const.MIN_GC_INTERVAL = float('inf')
         for m in memoize.registry:
             m.reset() if hasattr(m, 'reset') else None
             m.lock = sched.CoopLock(get_sched, name='memo:%s' % getattr(m.func, '__name__', '?'), reentrant=True)
         self.b = spec.build(program())
         b = self.b
-        inp = harness.make_proto('soap11', validator)
-        outp = harness.make_proto('soap11', polymorphic=True) if poly else harness.make_proto('soap11')
+        if proto == 'json':
+            inp = harness.make_proto('json', validator)
+            outp = harness.make_proto('json', complex_as=list)
+        else:
+            inp = harness.make_proto('soap11', validator)
+            outp = harness.make_proto('soap11', polymorphic=True) if poly else harness.make_proto('soap11')
         self.app = spec.make_app(b, inp, outp)
         for p in (inp, outp):
             if hasattr(p, '_mtx_validate'):
@@ -138,6 +158,8 @@ class World(object):
         Q, P = b.classes['Q'], b.classes['P']
         W = b.classes['W']
         b.rec.script['pa'] = ('call', lambda ctx, n: W(w='dubya%d' % n, v=n, u='you'))
+        Ord = b.classes['Ord']
+        b.rec.script['ord'] = ('call', lambda ctx, n: Ord(x=n, s='o%d' % n, k=n * 2, z='zed'))
         b.rec.script['poly'] = ('call', lambda ctx, n: Q(x=n, s='sub%d' % n, q=n * 10) if n == 1 else P(x=n, s='base%d' % n))
 
     def body(self, name):
@@ -145,7 +167,8 @@ class World(object):
         wsgi = self.wsgi
 
         def run():
-            env = drv.environ(method, '/app', query, data or b'', content_type='text/xml; charset=utf-8' if data else None,
+            ct = None if not data else ('application/json' if data.startswith(b'{') else 'text/xml; charset=utf-8')
+            env = drv.environ(method, '/app', query, data or b'', content_type=ct,
                               content_length='auto' if data else None)
             env['HTTP_HOST'] = 'localhost'
             o = drv.call_wsgi(wsgi, env)
@@ -182,17 +205,18 @@ def execute(driver, prefix, point_files):
 def shards(tier):
     out = []
     for d in sorted(DRIVERS):
-        reqs, _, _, q, t = DRIVERS[d]
+        reqs, _, _, q, t = DRIVERS[d][:5]
         if tier == 'quick':
             for sl in range(4):
                 out.append({'driver': d, 'files': q, 'bound': 1, 'tier': tier, 'slice': [sl, 4]})
         else:
             nsl = 16
             for sl in range(nsl):
-                # deeper preemption bounds on the transport module alone (the locks and caches of the WSGI server live
-                # there; ~170 preemption points per request pair): 3 for the ?wsdl pair, 2 for every other pair
+                # preemption bound 2 on the transport module alone (the locks and caches of the WSGI server live there;
+                # ~120-170 preemption points per request pair); the three-thread driver stays at bound 1 (bound 2 there
+                # did not finish in 25 minutes)
                 if len(reqs) == 2:
-                    out.append({'driver': d, 'files': ['server/wsgi.py'], 'bound': 3 if d == 'wsdl|wsdl' else 2, 'tier': tier, 'slice': [sl, nsl]})
+                    out.append({'driver': d, 'files': ['server/wsgi.py'], 'bound': 2, 'tier': tier, 'slice': [sl, nsl]})
                 out.append({'driver': d, 'files': t, 'bound': 1, 'tier': tier, 'slice': [sl, nsl]})
     if tier == 'thorough':
         for sl in range(16):
